@@ -164,6 +164,7 @@ void feat(uint64_t h)
 }
 void out_finish(void)
 {
+        if (arg_int("--static-watch", 0)) { static_watch_check(g_prop, "at the end of this engine's workload"); out_count("static_watch_sections_compared", (uint64_t) static_watch_init()); }
         pthread_mutex_lock(&out_mu);
         for (int i = 0; i < nctr; i++) {
                 printf("{\"t\":\"%s\",\"name\":", ctr[i].is_max ? "max" : "count"); json_str(stdout, ctr[i].name);
@@ -260,6 +261,7 @@ void out_init(int argc, char **argv)
         g_featout = arg_str("--feat-out", NULL);
         setvbuf(stdout, NULL, _IOLBF, 0);
         fault_install();
+        if (arg_int("--static-watch", 0)) { if (!static_watch_init()) out_err("static-storage watch: section list missing"); }
         signal(SIGALRM, on_alarm);
         alarm((unsigned) arg_int("--watchdog", 600));
 }
@@ -450,4 +452,65 @@ uintptr_t sym_next_global(uintptr_t a)
         uintptr_t best = 0;
         for (int i = 0; i < nsyms; i++) if (syms[i].a > a && syms[i].t == 'T' && (!best || syms[i].a < best)) best = syms[i].a;
         return best;
+}
+
+/* ---------------- static storage watch ---------------- */
+typedef struct { uintptr_t a; size_t n; char sec[40], obj[80]; uint8_t *img; } wsec_t;
+static wsec_t *wsecs; static int nwsecs = -1;
+static struct { uintptr_t a; size_t n; } exempt[80]; static int nexempt;
+int static_watch_init(void)
+{
+        if (nwsecs >= 0) return nwsecs;
+        nwsecs = 0;
+        char path[600]; snprintf(path, sizeof path, "%s.objmap", g_argv ? g_argv[0] : "");
+        FILE *f = fopen(path, "r");
+        if (!f) return 0;
+        /* writable mappings of this process */
+        struct { uintptr_t lo, hi; } wm[256]; int nwm = 0;
+        FILE *m = fopen("/proc/self/maps", "r");
+        char line[700];
+        while (m && fgets(line, sizeof line, m)) { unsigned long lo, hi; char perm[8]; if (sscanf(line, "%lx-%lx %7s", &lo, &hi, perm) == 3 && perm[1] == 'w' && nwm < 256) { wm[nwm].lo = lo; wm[nwm].hi = hi; nwm++; } }
+        if (m) fclose(m);
+        int cap = 0;
+        while (fgets(line, sizeof line, f)) {
+                unsigned long a, n; char sec[100], obj[200];
+                if (sscanf(line, "%lx %lx %99s %199s", &a, &n, sec, obj) != 4) continue;
+                if (!strncmp(sec, ".tbss", 5) || !strncmp(sec, ".tdata", 6)) continue;
+                int w = 0; for (int i = 0; i < nwm; i++) if (a >= wm[i].lo && a + n <= wm[i].hi) w = 1;
+                if (!w) continue;
+                if (nwsecs == cap) { cap = cap ? cap * 2 : 256; wsecs = realloc(wsecs, (size_t) cap * sizeof *wsecs); }
+                wsec_t *s = &wsecs[nwsecs++];
+                s->a = a; s->n = n; snprintf(s->sec, sizeof s->sec, "%s", sec); snprintf(s->obj, sizeof s->obj, "%s", obj);
+                s->img = malloc(n); memcpy(s->img, (void *) a, n);
+        }
+        fclose(f);
+        for (int i = 0; i < isal_dispatch_n && nexempt < 78; i++) { void **sl = dispatch_slot(isal_dispatch_entries[i].entry); if (sl) { exempt[nexempt].a = (uintptr_t) sl; exempt[nexempt].n = 8; nexempt++; } }
+        void *st = sym_addr("self_test_status");
+        if (st) { exempt[nexempt].a = (uintptr_t) st; exempt[nexempt].n = 4; nexempt++; }
+        return nwsecs;
+}
+int static_watch_check(const char *prop, const char *when)
+{
+        int nv = 0;
+        for (int i = 0; i < nwsecs; i++) {
+                wsec_t *s = &wsecs[i];
+                if (!memcmp(s->img, (void *) s->a, s->n)) continue;
+                for (size_t o = 0; o < s->n; o++) {
+                        if (s->img[o] == ((uint8_t *) s->a)[o]) continue;
+                        int ex = 0; for (int k = 0; k < nexempt; k++) if (s->a + o >= exempt[k].a && s->a + o < exempt[k].a + exempt[k].n) ex = 1;
+                        if (ex) continue;
+                        char key[200]; long off; const char *sn = sym_containing((void *) (s->a + o), &off);
+                        snprintf(key, sizeof key, "static-write %s %s", s->obj, s->sec);
+                        out_viol(prop, key, cur_replay, "library static storage changed: byte %zu of %s of %s (symbol %s+%ld) differs from its load-time image %s", o, s->sec, s->obj, sn, off, when);
+                        nv++;
+                        memcpy(s->img, (void *) s->a, s->n);        /* report once */
+                        break;
+                }
+        }
+        return nv;
+}
+void static_watch_inventory(char *dst, size_t n)
+{
+        size_t o = 0; dst[0] = 0;
+        for (int i = 0; i < nwsecs && o + 60 < n; i++) o += (size_t) snprintf(dst + o, n - o, "%s%s:%s:%zu", i ? " " : "", wsecs[i].obj, wsecs[i].sec, wsecs[i].n);
 }
